@@ -87,7 +87,12 @@ def gen_tables():
     """regenerate NixModel/Gen/Tables.lean from the sources; returns (ok, message)"""
     out = os.path.join(LEAN, 'NixModel', 'Gen', 'Tables.lean')
     rc, o = sh([sys.executable, os.path.join(VERIF, 'gen', 'extract_tables.py'), REPO, out])
-    return rc == 0, o
+    if rc != 0:
+        return False, o
+    # the rule tables of the validator (src/valid/validate.cpp) as Lean data: Props/C19Source.lean proves the model's tables equal them
+    out2 = os.path.join(LEAN, 'NixModel', 'Gen', 'ValidRules.lean')
+    rc2, o2 = sh([sys.executable, os.path.join(VERIF, 'gen', 'extract_valid_rules.py'), REPO, out2])
+    return rc2 == 0, o + o2
 
 def lake(target):
     env = dict(os.environ)
